@@ -136,3 +136,14 @@ Definition ms_close (sp : sparams) (st : mini) : mini * outcome unit :=
   | Ok _ => close_loop sp (close_fuel sp st1) st1
   | e => (st1, e)
   end.
+
+(* a sequence of stores on one MiniShard object; exceptions are caught by the
+   caller and the sequence continues *)
+Fixpoint ms_run (sp : sparams) (data_enc : bytes -> bytes) (st : mini) (ops : list (N * bytes))
+  : mini * list (outcome unit) :=
+  match ops with
+  | [] => (st, [])
+  | (c, b) :: r =>
+      let '(st1, o) := ms_store sp data_enc st b c in
+      let '(st2, os) := ms_run sp data_enc st1 r in (st2, o :: os)
+  end.
